@@ -11,7 +11,7 @@ for lg in logs:
         if m:
             results.setdefault((m.group(1), m.group(2)), {})[m.group(3)] = int(m.group(4))
 verify = {}
-for f in glob.glob('/tmp/verify-C*.log'):
+for f in glob.glob('/tmp/verify-C*.log')+glob.glob('/tmp/verify2-C*.log'):
     for line in open(f):
         m = re.match(r"(C\d+)/(\d): tests-with-patch: (\d+) passed (\d+) failed; demo exit with patch: (\d+); demo exit without: (\d+)", line)
         if m:
@@ -22,6 +22,15 @@ for (pid, k), v in sorted(verify.items()):
     if v['tests_failed'] != 0 or v['demo_exit_with_patch'] == 0 or v['demo_exit_without'] != 0:
         print('NOT KEPT', pid, k, v); continue
     dst = f'/verif/seeded/{pid}-{k}'
+    if not os.path.exists(f'{src}/patch{k}.diff'):
+        # already collected in an earlier round (scratch copy removed): only refresh the results
+        if os.path.exists(f'{dst}/meta.json'):
+            m = json.load(open(f'{dst}/meta.json'))
+            res = results.get((pid, k), {})
+            m['checks_run'].update({c: ('caught (exit 1)' if e == 1 else f'not caught (exit {e})') for c, e in res.items()})
+            json.dump(m, open(f'{dst}/meta.json', 'w'), indent=1)
+            rows.append((pid, k, m.get('breaks', ''), m['checks_run']))
+        continue
     os.makedirs(dst, exist_ok=True)
     shutil.copy(f'{src}/patch{k}.diff', f'{dst}/patch.diff')
     if os.path.isdir(f'{dst}/demo'): shutil.rmtree(f'{dst}/demo')
